@@ -695,7 +695,7 @@ def root_index(snap, idx):
 REF_ARG_KEYS = ("t", "x", "y", "p", "d", "parent")
 # ops that must not change any pre-existing object at all
 OBSERVERS = ("clone", "clone_twice", "export_leaf", "template_clone", "get_values", "hold_list", "validate", "doc_validate",
-             "validate_custom", "validate_keep", "validate_rerun", "validate_optional", "save", "load", "restart", "advance", "damage_file", "reseed")
+             "validate_custom", "validate_keep", "validate_rerun", "validate_optional", "save", "load", "restart", "advance", "damage_file", "reseed", "add_raising_rule")
 
 
 def footprint(ctx):
